@@ -162,7 +162,7 @@ class SQLiteAlterTableSQLResult(AlterTableSQLResult):
 
                 field_values[new_column] = qn(old_column)
 
-        field_initials = []
+        initial_params = {}
 
         # If we have any new fields, add their defaults.
         if new_initial:
@@ -177,13 +177,23 @@ class SQLiteAlterTableSQLResult(AlterTableSQLResult):
                     if embed_initial:
                         field_values[column] = initial
                     else:
-                        field_initials.append(initial)
+                        initial_params[column] = initial
 
                         if column in field_values:
                             field_values[column] = \
                                 'coalesce(%s, %%s)' % qn(column)
                         else:
                             field_values[column] = '%s'
+
+        # The placeholders are written in the order of field_values (the
+        # existing columns first, then the added ones), so the parameters
+        # must follow that order rather than the order in which the
+        # operations were queued.
+        field_initials = [
+            initial_params[column]
+            for column in six.iterkeys(field_values)
+            if column in initial_params
+        ]
 
         # The SQLite documentation defines the steps that should be taken to
         # safely alter the schema for a table. Unlike most types of databases,
